@@ -2,9 +2,12 @@ package rules
 
 import (
 	"fmt"
+	"go/types"
 	"regexp"
 	"sort"
 	"strings"
+
+	"golang.org/x/tools/go/ssa"
 
 	"verif/wscheck/internal/fold"
 )
@@ -12,7 +15,7 @@ import (
 func init() {
 	register(&Property{
 		ID:      "C07",
-		Explain: "(1) The UTF-8 automaton is extracted by folding wsutil.decode itself over (state, byte) for every reachable state and all 256 byte values, with the utf8d table read through its (write-once) initialiser, and is proven language-equivalent to a reference DFA for Unicode Table 3-7 (no overlongs, no surrogates, nothing above U+10FFFF) by exhaustive product construction; the reject state is absorbing and coincides with the reference's dead state; every table index is in range. A change to the table or to the index arithmetic changes the extracted automaton. (2) UTF8Reader.Read is folded for 0..3 bytes read with decode as an uninterpreted step: the step is applied to p[0..n) in order with the carried (state, codep), state is written back on both exits, a reject returns ErrInvalidUTF8. Valid() is 'state == accept'. (3) Wiring in wsutil.Reader (folds shared with C04): the validating reader is installed iff CheckUTF8 and (text frame or continuation of a text message), control frames do not touch it, the DFA state survives fragment boundaries (resetFragment) and is cleared per message (reset), and validity is tested exactly at the end of the final fragment, where an invalid message yields ErrInvalidUTF8 and never io.EOF. When the message ends in an invalid state Read must report the validated prefix, not the full count (io.ReadFull, used by ReadMessage, drops an error that arrives with the last requested byte); UTF8Reader.Read must refresh Accepted() on every call, also when nothing was read. Discard and the helpers are part of this check (the automaton state must not survive a discarded message; readData / ReadMessage start from a pristine Reader). From the accepting state a shortcut for plain ASCII is allowed, but every byte that is not fed to the automaton must occur in a condition decided on the path (byte lanes are tracked through word loads and masks).",
+		Explain: "(1) The UTF-8 automaton is extracted by folding wsutil.decode itself over (state, byte) for every reachable state and all 256 byte values, with the utf8d table read through its (write-once) initialiser, and is proven language-equivalent to a reference DFA for Unicode Table 3-7 (no overlongs, no surrogates, nothing above U+10FFFF) by exhaustive product construction; the reject state is absorbing and coincides with the reference's dead state; every table index is in range. A change to the table or to the index arithmetic changes the extracted automaton. (2) UTF8Reader.Read is folded for 0..3 bytes read with decode as an uninterpreted step: the step is applied to p[0..n) in order with the carried (state, codep), state is written back on both exits, a reject returns ErrInvalidUTF8. Valid() is 'state == accept'. (3) Wiring in wsutil.Reader (folds shared with C04): the validating reader is installed iff CheckUTF8 and (text frame or continuation of a text message), control frames do not touch it, the DFA state survives fragment boundaries (resetFragment) and is cleared per message (reset), and validity is tested exactly at the end of the final fragment, where an invalid message yields ErrInvalidUTF8 and never io.EOF. When the message ends in an invalid state Read must report the validated prefix, not the full count (io.ReadFull, used by ReadMessage, drops an error that arrives with the last requested byte); UTF8Reader.Read must refresh Accepted() on every call, also when nothing was read. Discard and the helpers are part of this check (the automaton state must not survive a discarded message; readData / ReadMessage start from a pristine Reader). From the accepting state a shortcut for plain ASCII is allowed, but every byte that is not fed to the automaton must occur in a condition decided on the path (byte lanes are tracked through word loads and masks). The step function is taken in either shape: decode(state, codep, b) (codep, state), or the single function over a {state, codep} struct that reads utf8d (a value-receiver method such as next(b)). OnContinuation is handed the reader chain installed for Read (a callback that consumes the fragment passes through the validator). UTF8Reader.Reset returns every field to a new reader's value (C18.small-resets runs here).",
 		Trusted: []string{"go/ssa + go/types", "the checker's abstract evaluator", "the reference DFA written in the checker from Unicode Table 3-7"},
 		Assume:  []string{"the Accepted() bookkeeping and the interplay with transport errors are not decided"},
 		Run: func(c *Ctx) {
@@ -102,10 +105,11 @@ func refStep(s int, b int) int {
 func c07DFA(c *Ctx) {
 	const rule = "C07.dfa-equivalence"
 	c.R.Rule(rule, 1, "the automaton computed by decode over utf8d accepts exactly valid UTF-8")
-	f := c.fn(rule, wsutil, "decode")
-	if f == nil {
+	sf := c.utf8Step(rule)
+	if sf == nil {
 		return
 	}
+	f := sf.fn
 	accept, okA := c.constInt(rule, wsutil, "utf8Accept")
 	reject, okR := c.constInt(rule, wsutil, "utf8Reject")
 	if !okA || !okR {
@@ -120,20 +124,20 @@ func c07DFA(c *Ctx) {
 		var curState int64 = state
 		paths := m.Explore(f, func(mm *fold.Machine) []fold.Val {
 			b := mm.Choose("b", 256)
-			return []fold.Val{fold.K(curState), fold.Int{Lo: 0, Hi: 1<<32 - 1, Name: "codep"}, fold.K(int64(b))}
+			return sf.args(fold.K(curState), fold.Int{Lo: 0, Hi: 1<<32 - 1, Name: "codep"}, fold.K(int64(b)))
 		}, nil)
 		cells += len(paths)
 		for _, p := range paths {
 			if p.Abort != "" || p.Panic {
 				return nil, fmt.Sprintf("state %d byte %#x: %s%s", state, p.Chose("b"), p.Abort, panicNote(p))
 			}
-			ret, _ := p.Ret.(fold.Tuple)
-			if len(ret) != 2 {
+			_, nsv, okShape := sf.result(p.Ret)
+			if !okShape {
 				return nil, "unexpected result shape"
 			}
-			ns, ok := ret[1].(fold.Int)
+			ns, ok := nsv.(fold.Int)
 			if !ok || !ns.IsConst() {
-				return nil, fmt.Sprintf("state %d byte %#x: next state does not fold to a constant (%s)", state, p.Chose("b"), fold.Show(ret[1]))
+				return nil, fmt.Sprintf("state %d byte %#x: next state does not fold to a constant (%s)", state, p.Chose("b"), fold.Show(nsv))
 			}
 			out[p.Chose("b")] = ns.Const()
 		}
@@ -250,13 +254,17 @@ func c07Read(c *Ctx) {
 		}
 		return fold.Tuple{fold.K(int64(n)), e}
 	}
-	m.Models[wsutil+".decode"] = func(cl *fold.Call) fold.Val {
+	step := c.utf8Step(rule)
+	if step == nil {
+		return
+	}
+	m.Models[step.key] = func(cl *fold.Call) fold.Val {
 		mm := cl.M
-		mm.Emit(fold.Effect{Kind: "call", Name: "decode", Args: cl.Args})
+		mm.Emit(fold.Effect{Kind: "call", Name: "decode", Args: step.in(cl.Args)})
 		k := mm.Choose(fmt.Sprintf("step%d", cl.Seq), 3)
 		cur.kinds = append(cur.kinds, k)
 		st := []int64{0, 12, 24}[k]
-		return fold.Tuple{fold.Int{Lo: 0, Hi: 1<<32 - 1, Name: fmt.Sprintf("codep%d", cl.Seq)}, fold.K(st + int64(cl.Seq)*0)}
+		return step.out(fold.Int{Lo: 0, Hi: 1<<32 - 1, Name: fmt.Sprintf("codep%d", cl.Seq)}, fold.K(st))
 	}
 	paths := m.Explore(f, func(mm *fold.Machine) []fold.Val {
 		cur = rec{}
@@ -385,9 +393,9 @@ func c07Read(c *Ctx) {
 				}
 				return fold.Tuple{fold.K(int64(nn)), fold.Nil{}}
 			}
-			m2.Models[wsutil+".decode"] = func(cl *fold.Call) fold.Val {
-				cl.M.Emit(fold.Effect{Kind: "call", Name: "decode", Args: cl.Args})
-				return fold.Tuple{fold.Int{Lo: 0, Hi: 1<<32 - 1, Name: fmt.Sprintf("codep%d", cl.Seq)}, fold.K(24)} // mid-sequence state throughout
+			m2.Models[step.key] = func(cl *fold.Call) fold.Val {
+				cl.M.Emit(fold.Effect{Kind: "call", Name: "decode", Args: step.in(cl.Args)})
+				return step.out(fold.Int{Lo: 0, Hi: 1<<32 - 1, Name: fmt.Sprintf("codep%d", cl.Seq)}, fold.K(24)) // mid-sequence state throughout
 			}
 			ps := m2.Explore(f, func(mm *fold.Machine) []fold.Val {
 				s := fold.SymOfType("u", un).(fold.Struct)
@@ -435,9 +443,9 @@ func c07Read(c *Ctx) {
 				}
 				return fold.Tuple{fold.K(int64(nn)), fold.Nil{}}
 			}
-			m3.Models[wsutil+".decode"] = func(cl *fold.Call) fold.Val {
-				cl.M.Emit(fold.Effect{Kind: "call", Name: "decode", Args: cl.Args})
-				return fold.Tuple{fold.Int{Lo: 0, Hi: 1<<32 - 1, Name: fmt.Sprintf("codep%d", cl.Seq)}, fold.K(0)}
+			m3.Models[step.key] = func(cl *fold.Call) fold.Val {
+				cl.M.Emit(fold.Effect{Kind: "call", Name: "decode", Args: step.in(cl.Args)})
+				return step.out(fold.Int{Lo: 0, Hi: 1<<32 - 1, Name: fmt.Sprintf("codep%d", cl.Seq)}, fold.K(0))
 			}
 			ps := m3.Explore(f, func(mm *fold.Machine) []fold.Val {
 				s := fold.SymOfType("u", un).(fold.Struct)
@@ -504,4 +512,134 @@ func c07Read(c *Ctx) {
 		c.verdict(rule, rule+"/Valid", c.P.FuncPos(v), p2, "Valid() == (state == utf8Accept)")
 	}
 	_ = strings.Join
+}
+
+// utf8Step is the step function of the UTF-8 automaton in the shape the rules
+// talk about - (state, codep, byte) -> (codep, state) - whatever shape the code
+// gives it: the plain function decode(state, codep, b) (codep, state), or a
+// function / value-receiver method over a struct that holds state and codep
+// and returns that struct.
+type utf8StepFn struct {
+	fn             *ssa.Function
+	key            string
+	structForm     bool
+	st             *types.Struct
+	iState, iCodep int
+}
+
+func (c *Ctx) utf8Step(rule string) *utf8StepFn {
+	isU32 := func(t types.Type) bool {
+		b, ok := t.Underlying().(*types.Basic)
+		return ok && b.Kind() == types.Uint32
+	}
+	isByte := func(t types.Type) bool {
+		b, ok := t.Underlying().(*types.Basic)
+		return ok && (b.Kind() == types.Uint8 || b.Kind() == types.Byte)
+	}
+	classify := func(f *ssa.Function) *utf8StepFn {
+		if f == nil || f.Blocks == nil {
+			return nil
+		}
+		ps, rs := f.Params, f.Signature.Results()
+		if len(ps) == 3 && isU32(ps[0].Type()) && isU32(ps[1].Type()) && isByte(ps[2].Type()) && rs.Len() == 2 && isU32(rs.At(0).Type()) && isU32(rs.At(1).Type()) {
+			return &utf8StepFn{fn: f, key: fold.CanonFuncName(f)}
+		}
+		if len(ps) == 2 && isByte(ps[1].Type()) && rs.Len() == 1 && types.Identical(ps[0].Type(), rs.At(0).Type()) {
+			if st, ok := ps[0].Type().Underlying().(*types.Struct); ok {
+				iS, iC := fieldIdx(st, "state", nil), fieldIdx(st, "codep", nil)
+				if iS >= 0 && iC >= 0 && isU32(st.Field(iS).Type()) && isU32(st.Field(iC).Type()) {
+					return &utf8StepFn{fn: f, key: fold.CanonFuncName(f), structForm: true, st: st, iState: iS, iCodep: iC}
+				}
+			}
+		}
+		return nil
+	}
+	if f := c.P.Func(wsutil, "decode"); f != nil {
+		if s := classify(f); s != nil {
+			return s
+		}
+	}
+	// the function that reads the transition table
+	g := c.P.Global(wsutil, "utf8d")
+	var cands []*ssa.Function
+	if g != nil {
+		for _, fn := range c.P.AllModuleFuncs() {
+			if fn.Synthetic != "" || fn.Name() == "init" {
+				continue
+			}
+			uses := false
+			for _, b := range fn.Blocks {
+				for _, in := range b.Instrs {
+					for _, op := range in.Operands(nil) {
+						if *op == ssa.Value(g) {
+							uses = true
+						}
+					}
+				}
+			}
+			if uses {
+				cands = append(cands, fn)
+			}
+		}
+	}
+	if len(cands) == 1 {
+		if s := classify(cands[0]); s != nil {
+			c.R.Note("the UTF-8 step function is %s (it is the only function that reads utf8d)", cands[0].String())
+			return s
+		}
+	}
+	c.R.Unknown(rule, rule+"/anchor:wsutil.decode", "-", "the step function of the UTF-8 automaton is not recognisable: neither decode(state, codep, b) (codep, state) nor a single function over a {state, codep} struct reads utf8d")
+	return nil
+}
+
+func (s *utf8StepFn) args(state, codep, b fold.Val) []fold.Val {
+	if !s.structForm {
+		return []fold.Val{state, codep, b}
+	}
+	v := fold.Struct{F: make([]fold.Val, s.st.NumFields())}
+	for i := range v.F {
+		v.F[i] = fold.Zero(s.st.Field(i).Type())
+	}
+	v.F[s.iState], v.F[s.iCodep] = state, codep
+	return []fold.Val{v, b}
+}
+
+// in gives the arguments of a call as (state, codep, byte).
+func (s *utf8StepFn) in(a []fold.Val) []fold.Val {
+	if !s.structForm {
+		return a
+	}
+	if len(a) == 2 {
+		if v, ok := a[0].(fold.Struct); ok && len(v.F) > s.iState && len(v.F) > s.iCodep {
+			return []fold.Val{v.F[s.iState], v.F[s.iCodep], a[1]}
+		}
+	}
+	return []fold.Val{fold.Sym{Name: "?"}, fold.Sym{Name: "?"}, fold.Sym{Name: "?"}}
+}
+
+func (s *utf8StepFn) out(codep, state fold.Val) fold.Val {
+	if !s.structForm {
+		return fold.Tuple{codep, state}
+	}
+	v := fold.Struct{F: make([]fold.Val, s.st.NumFields())}
+	for i := range v.F {
+		v.F[i] = fold.Zero(s.st.Field(i).Type())
+	}
+	v.F[s.iState], v.F[s.iCodep] = state, codep
+	return v
+}
+
+func (s *utf8StepFn) result(r fold.Val) (codep, state fold.Val, ok bool) {
+	if !s.structForm {
+		t, isT := r.(fold.Tuple)
+		if !isT || len(t) != 2 {
+			return nil, nil, false
+		}
+		return t[0], t[1], true
+	}
+	v, isS := r.(fold.Struct)
+	if !isS || len(v.F) <= s.iState || len(v.F) <= s.iCodep {
+		return nil, nil, false
+	}
+	return v.F[s.iCodep], v.F[s.iState], true
 }
